@@ -246,6 +246,7 @@ static void run_prog (void *arg) {
 		case OP_CTR_ADD: if (ctrs[o->a]) { uint32_t r; vf_log ("call nsync_counter_add %s %d", vf_name_of (ctrs[o->a]), o->b); vf_api_enter (); r = nsync_counter_add (ctrs[o->a], o->b); vf_api_leave (); vf_log ("ret nsync_counter_add %u", r); } break;
 		case OP_CTR_VALUE: if (ctrs[o->a]) { uint32_t r; vf_log ("call nsync_counter_value %s", vf_name_of (ctrs[o->a])); vf_api_enter (); r = nsync_counter_value (ctrs[o->a]); vf_api_leave (); vf_log ("ret nsync_counter_value %u", r); } break;
 		case OP_CTR_WAIT: if (ctrs[o->a]) { uint32_t r; nsync_time t = mk_deadline (o, dt, sizeof (dt)); vf_log ("call nsync_counter_wait %s %s", vf_name_of (ctrs[o->a]), dt); vf_api_enter (); r = nsync_counter_wait (ctrs[o->a], t); vf_api_leave (); vf_log ("ret nsync_counter_wait %u", r);
+				if (r == 0) { int q; for (q = 0; q + 1 < nvar; q++) { vf_log ("data r x%d %d", q, vars[q]); } }
 				if (r != 0 && dl_ns (o) > vf_now ()) { vf_violation ("early-timeout", "nsync_counter_wait returned non-zero before its deadline"); } } break;
 		case OP_CTR_FREE: if (ctrs[o->a]) { nsync_counter c = ctrs[o->a]; vf_log ("call nsync_counter_free %s", vf_name_of (c)); ctrs[o->a] = NULL; vf_api_enter (); nsync_counter_free (c); vf_api_leave (); vf_log ("ret nsync_counter_free -"); } break;
 		case OP_ONCE: {
